@@ -537,8 +537,28 @@ func c15Bounded(r *Report, rule string) {
 	clientT := func(t types.Type) bool { return typeIs(derefType(t), "net/http", "Client") }
 	// every http.Client built in h (and its closures) gets a positive overall Timeout
 	clientsBounded := func(h *ssa.Function) (bool, token.Pos, string) {
-		fns := []*ssa.Function{h}
-		fns = append(fns, h.AnonFuncs...)
+		// h, its closures, and the functions of its package it calls (newClient(transport))
+		var fns []*ssa.Function
+		seenF := map[*ssa.Function]bool{}
+		var collect func(g *ssa.Function, d int)
+		collect = func(g *ssa.Function, d int) {
+			if seenF[g] || d > 3 || g.Blocks == nil {
+				return
+			}
+			seenF[g] = true
+			fns = append(fns, g)
+			for _, a := range g.AnonFuncs {
+				collect(a, d)
+			}
+			allInstrs(g, func(in ssa.Instruction) {
+				if c, ok := in.(*ssa.Call); ok && !c.Call.IsInvoke() {
+					if cal := c.Call.StaticCallee(); cal != nil && funcPkgPath(cal) == funcPkgPath(h) {
+						collect(cal, d+1)
+					}
+				}
+			})
+		}
+		collect(h, 0)
 		n := 0
 		for _, g := range fns {
 			var bad ssa.Instruction
